@@ -3,12 +3,17 @@
 
   Proved: T/F expansion = M plus the previous and next depth-d cell of each cell, clipped to the
   domain, canonical; T/F contraction (repaired at the domain bounds) characterised range by range.
-  HEALPix (space) expansion / borders / splitting / hole filling are NOT modelled in Lean (they
-  depend on the cdshealpix neighbour geometry): the check compares the implementation with an
-  independent brute-force oracle on the flat cell set (depths 0–2) — a test, labelled as such.
+  Space (HEALPix): expansion, contraction, external / internal borders and splitting are modelled
+  over an ADJACENCY RELATION GIVEN AS DATA (`Model/Graph.lean`; the harness sends the neighbour lists
+  of cdshealpix — the geometry itself is the trusted parameter): the theorems below say that the model
+  functions are the property's definitions for EVERY adjacency and EVERY cell set — expansion = cells
+  equal or adjacent to a cell of M; contraction = cells of M not adjacent from outside M; borders;
+  splitting = a partition into closed, connected, pairwise separated components.  Hole filling is
+  checked against the brute-force oracle of the harness only (test level).
 -/
 import MocVerif.Lemmas.Morpho
 import MocVerif.Model.Params
+import MocVerif.Lemmas.Graph
 
 namespace Moc.C17
 
@@ -43,6 +48,48 @@ theorem original_contracted_counterexample :
     complement ub (tfExpanded c ub (complement ub [(0, 10)])) = [(0, 9)] := by
   refine ⟨by decide, ?_⟩
   simp [complement, complFrom, tfExpanded, mergeSorted, mergeOverlapping, mergeOvFrom, tfGrow]
+
+/-! ### Space part: morphology over a given adjacency -/
+section Space
+open Moc.Graph
+
+/-- **Space expansion** = exactly the cells equal or adjacent to a cell of `M`. -/
+theorem space_expanded_sem (g : Adj) (s : List Nat) (x : Nat) :
+    x ∈ Graph.expanded g s ↔ x ∈ s ∨ ∃ c ∈ s, x ∈ nbrs g c := mem_expanded g s x
+
+/-- **Space contraction** (`M ⊆ univ`) = the cells of `M` that no cell outside `M` is adjacent to
+    (i.e. `complement ∘ expanded ∘ complement`). -/
+theorem space_contracted_sem (g : Adj) (univ s : List Nat) (hs : ∀ x ∈ s, x ∈ univ) (x : Nat) :
+    x ∈ Graph.contracted g univ s ↔ x ∈ s ∧ ∀ c ∈ univ, c ∉ s → x ∉ nbrs g c :=
+  mem_contracted g univ s hs x
+
+/-- **Borders**: the external border is outside `M` and adjacent to it; the internal border is what
+    the contraction removes. -/
+theorem space_borders (g : Adj) (univ s : List Nat) (x : Nat) :
+    (x ∈ extBorder g s ↔ x ∉ s ∧ ∃ c ∈ s, x ∈ nbrs g c) ∧
+    (x ∈ intBorder g univ s ↔ x ∈ s ∧ x ∉ Graph.contracted g univ s) :=
+  ⟨mem_extBorder g s x, mem_intBorder g univ s x⟩
+
+/-- **Splitting** returns a correct partition, for every adjacency and every cell set: each part is
+    the component of one of its cells — inside the set, closed (no cell of the remaining set is
+    adjacent from it), every cell reachable from that cell — and the other parts split the rest. -/
+theorem space_split_correct (g : Adj) (s : List Nat) : IsSplit g s (splitAll g s) :=
+  split_spec g s.length s (Nat.le_refl _)
+
+/-- The parts cover the set exactly … -/
+theorem space_split_cover (g : Adj) (s : List Nat) (x : Nat) :
+    x ∈ s ↔ ∃ comp ∈ splitAll g s, x ∈ comp := (space_split_correct g s).cover x
+
+/-- … are pairwise disjoint, and no cell of a part is adjacent to a cell of a later part (for a
+    symmetric adjacency such as HEALPix neighbourhood: no two parts are adjacent). -/
+theorem space_split_separated (g : Adj) (s : List Nat) :
+    (splitAll g s).Pairwise fun a b => (∀ x ∈ a, x ∉ b) ∧ ∀ x ∈ a, ∀ n ∈ nbrs g x, n ∉ b :=
+  (space_split_correct g s).separated
+
+/-! Non-vacuity: a path 0–1–2 and an isolated cell 5. -/
+example : splitAll [(0, [1]), (1, [0, 2]), (2, [1]), (5, [])] [0, 1, 2, 5] = [[0, 1, 2], [5]] := by decide
+
+end Space
 
 /-! Non-vacuity -/
 example : Valid Params.time 16 2 [(0, 2048), (4096, 6144)] := (Moc.validB_iff _ _ _ _).1 (by decide)
